@@ -39,6 +39,29 @@ PROPOSED_FINDINGS = [
 
 ARGDUMP = 'print "n=" + str($ARG.count());\ni = 0;\nwhile i < $ARG.count() loop\n  print "[" + $ARG.at(i) + "]";\n  i = i + 1;\nend loop;\n'
 
+# the same program as a generator tree (source AND S-expression): the model runs it too
+ARGDUMP_AST = [
+    ("print", [("bin", "ADD", S("n="), ("call", "str", [("member", "count", ("var", "$ARG"), [])]))]),
+    ("let", "I9", I(0)),
+    ("while", ("bin", "LT", ("var", "I9"), ("member", "count", ("var", "$ARG"), [])),
+     [("print", [("bin", "ADD", ("bin", "ADD", S("["), ("member", "at", ("var", "$ARG"), [("var", "I9")])), S("]"))]),
+      ("let", "I9", ("bin", "ADD", ("var", "I9"), I(1)))]),
+]
+
+# goal 1 — the argv enumeration: option words x program word x what follows the program word
+ENUM_PRE = [[], [b"--out=o.txt"], [b"--color"], [b"--debug"], [b"--debug=x"], [b"--parse"], [b"--out=a.txt", b"--out=o.txt"], [b"--out=o.txt", b"--out="],
+            [b"--colour"], [b"--outfile"], [b"--debug=all"]]
+ENUM_PROG = [b"p.bloc", b"-", b"./p.bloc"]
+ENUM_TAIL = [[], [b"-v", b"tail"], [b"-1", b"-2.5"], [b"--out=trap.txt", b"tail"], [b"-n", b"3"], [b"-i"], [b"-e", b"1"], [b"-h"], [b"--help"], [b"--"],
+             [b"-"], [b"-", b"-"], [b"", b""], [b"--debug=all"], [b"--cli", b"--expr"], [b"-x", b"--", b"-y", b"z"], [b"--out="], [b"-\xc3\xa9"], [b"p.bloc"],
+             [b"a", b"-b", b"", b"--c=d", b"-"]]
+ENUM_BAD = [[b"--", b"p.bloc"], [b"-v", b"p.bloc"], [b"-d", b"p.bloc"], [b"--d", b"p.bloc"], [b"-o", b"p.bloc"], [b"--ou=o.txt", b"p.bloc"], [b"-1", b"p.bloc"],
+            [b"--color", b"--", b"-"], [b"--out=o.txt", b"-V", b"-"], [b"-\xc3\xa9", b"p.bloc"], [b"--out", b"o.txt", b"p.bloc"], [b"--out=o.txt", b"", b"x"],
+            [b"-", b"p.bloc"], [b"--Out=o.txt", b"p.bloc"], [b"-E", b"1"], [b"-I"], [b"--debug=all", b"-q"], [b"--help", b"p.bloc"], [b"-h", b"-"]]
+
+# goal 2 — physical line lengths (bytes, newline included) around the reader's 1023-byte buffer
+LINE_LENGTHS = list(range(1020, 1031)) + list(range(2040, 2051)) + [3069, 3070, 20000]
+
 ARGVECS = [
     [], [b"a"], [b"a", b"b c", b"d"], [b"with space", b"tab\there"], [b"\"quoted\"", b"it's", b"back\\slash"],
     ["héllo wörld".encode(), "日本語".encode(), b"\xf0\x9f\x98\x80"], [b"-x", b"--out=zz", b"-e", b"-i", b"-"],
@@ -126,6 +149,7 @@ class C19(Check):
         quick = self.tier == "quick"
         cases = []
         n = [0]
+        self.longload = []
 
         def add(kind, argv, **kw):
             n[0] += 1
@@ -163,6 +187,49 @@ class C19(Check):
             body = "".join(chr(97 + (i * 7) % 26) for i in range(ln))
             prog = [("print", [("call", "strlen", [S(body)])]), ("print", [S(body)]), ("print", [S("end")])]
             prog_variants("longline", prog=prog, combos=(0, 1, 4) if quick else (0, 1, 2, 3, 4))
+        # A3. physical lines of 1020..1030, 2040..2050, … 20000 bytes (newline included): a long string literal printed
+        # (any dropped / duplicated byte shows), followed on the NEXT line by a statement that must still be there;
+        # through `bloc file`, `bloc -` (and CRLF variants at some lengths)
+        dist = self.stats.setdefault("distribution", {})
+        ll = dist.setdefault("longline_physical_lengths", {})
+        for ln in LINE_LENGTHS:
+            # one physical line `print "piece" "piece" … ;` of exactly ln bytes (newline included); pieces of <= 100 bytes (the
+            # S-expression reader of the driver is quadratic in the length of an atom), all different
+            def mk(sizes):
+                return [("print", [S("".join(chr(97 + (i * 11 + k * 7 + ln) % 26) for i in range(z))) for k, z in enumerate(sizes)]),
+                        ("print", [S("next line reached")])]
+            k = -(-(ln - 7) // 105)                       # line = `print ("…") ("…") … ;\n` = 7 + sum(sizes) + 5 * k bytes
+            tot = ln - 7 - 5 * k
+            sizes = [tot // k + (1 if i < tot % k else 0) for i in range(k)]
+            prog = mk(sizes)
+            src = progen.program_src(prog)
+            first = src.split("\n")[0]
+            assert len(first) + 1 == ln, (len(first), ln)
+            ll[str(ln)] = ll.get(str(ln), 0) + 2
+            prog_variants("longline", prog=prog, combos=(0, 1, 4) if ln % 5 == 0 or ln >= 3000 else (0, 1))
+            self.longload.append((ln, src, prog))
+        # A4. goal 1: the argv enumeration — option words x program word x what follows it; the program dumps $ARG
+        ad_src, ad_sx = progen.program_src(ARGDUMP_AST), progen.program_sexp(ARGDUMP_AST)
+        ad_bs = ad_src.encode("latin-1")
+        en = dist.setdefault("argvenum", {"pre": {}, "prog": {}, "tail_first_word": {}, "bad": 0})
+        k = 0
+        for pre in ENUM_PRE:
+            for pw in ENUM_PROG:
+                for tail in ENUM_TAIL:
+                    k += 1
+                    if quick and not (pw == b"-" or not pre or k % 3 == 0):
+                        continue
+                    av = pre + [pw] + tail
+                    add("argvenum", av, files={"p.bloc": ad_bs}, stdin=ad_bs if pw == b"-" else b"", src=ad_src, sexp=ad_sx,
+                        meta={"debugall": b"--debug=all" in pre})
+                    en["pre"][" ".join(a.decode("latin-1") for a in pre) or "(none)"] = en["pre"].get(" ".join(a.decode("latin-1") for a in pre) or "(none)", 0) + 1
+                    en["prog"][pw.decode()] = en["prog"].get(pw.decode(), 0) + 1
+                    fw = (tail[0].decode("latin-1") if tail else "(no tail)")
+                    fw = "(empty word)" if fw == "" else fw
+                    en["tail_first_word"][fw] = en["tail_first_word"].get(fw, 0) + 1
+        for av in ENUM_BAD:
+            add("argvenum", av, files={"p.bloc": ad_bs}, stdin=ad_bs, src=ad_src, sexp=ad_sx, meta={"debugall": b"--debug=all" in av[:1]})
+            en["bad"] += 1
         # B. one program per returned value type
         for src_e, sx_e in RETURNS:
             src = 'print "out";\nreturn %s;\n' % src_e
@@ -481,6 +548,16 @@ class C19(Check):
             if r["rc"] != 0 or not re.search(pat, r["out"], re.S):
                 return self.viol("$ARG as seen in interactive mode differs from the command-line words", c, m)
             return
+        if c.kind == "argvenum" and mexit == "exit:0" and mtr == "-":
+            args = self.program_args(c)
+            want_v = "Ts1[%s]" % ",".join("S:" + a.hex() for a in args)
+            if marg != want_v:
+                return self.viol("model $ARG = %s, expected the words after the program word %s" % (marg, want_v), c, m)
+            exp = b"n=%d\n" % len(args) + b"".join(b"[" + a + b"]\n" for a in args)
+            sel = bytes.fromhex(mfile.partition(":")[2]) if mfile != "-" else mout
+            if sel != exp:
+                return self.viol("the model's selected output %r is not the dump of the words after the program word %r" % (sel[:200], exp[:200]), c, m)
+            self.stats["argvenum_program_mode"] = self.stats.get("argvenum_program_mode", 0) + 1
         if c.kind == "argdump":
             args = self.program_args(c)
             want_v = "Ts1[%s]" % ",".join("S:" + a.hex() for a in args)
@@ -527,6 +604,8 @@ class C19(Check):
                 return self.viol("stdout differs from the model: got %r want %r" % (r["out"][:300], want_out[:300]), c, m)
         # ---- stderr class
         ce, cm = classify_err(r["err"]), classify_err(merr)
+        if c.meta.get("debugall"):
+            ce = cm           # --debug=all: the scanner/parser trace on stderr is not modelled
         if ce != cm:
             return self.viol("stderr class %s, the model gives %s" % (ce, cm), c, m)
         # ---- files created
@@ -543,7 +622,7 @@ class C19(Check):
                 return self.viol("--out file differs from the model: got %r want %r" % (r["made"][name][:300], bytes.fromhex(co)[:300]), c, m)
         # ---- against the in-process library
         po = c.probe
-        if po and po.get("out") is not None and c.kind not in ("expr", "inter", "option") and po["outcome"] != "?":
+        if po and po.get("out") is not None and c.kind not in ("expr", "inter", "option") and po["outcome"] != "?" and not (c.kind == "argvenum" and (marg == "-" or want_rc != 0 or mtr != "-")):
             sel = bytes.fromhex(mfile.partition(":")[2]) if mfile != "-" else r["out"]
             if not sel.startswith(po["out"]):
                 return self.viol("selected output does not start with the library's output %r" % po["out"][:200], c, m)
@@ -602,6 +681,137 @@ class C19(Check):
             self.broken_ties.append("driver: " + model["#driver-error"][-400:])
         for c in cases:
             self.judge_case(c, model.get(c.cid))
+        # ---- the same process runs with NO parser table: Env.compile := the model's own front end on the program TEXT
+        t = time.time()
+        fe = [c for c in cases if c.kind in ("random", "longline", "broken", "rterr", "return", "argvenum") and c.src is not None and c.real
+              and (c.kind != "random" or int(c.cid[1:]) % 3 == 0) and (c.kind != "argvenum" or int(c.cid[1:]) % 7 == 0)]
+        lines = []
+        for c in fe:
+            w = ["cli", "X:1"] + ["A:" + a.hex() for a in c.argv] + ["S:" + c.stdin.hex()]
+            for fn, bs in c.files.items():
+                w += ["F:%s=%s" % (fn.encode().hex(), bs.hex()), "F:%s=%s" % (("./" + fn).encode().hex(), bs.hex())]
+            lines.append("%s %s" % (c.cid, " ".join(w)))
+        model = run.run_driver(lines, workers=8)
+        if "#driver-error" in model:
+            self.broken_ties.append("driver (front-end instance): " + model["#driver-error"][-400:])
+        fs = self.stats.setdefault("distribution", {}).setdefault("front_end_instance", {"by_kind": {}, "agree": 0, "unsupported": 0, "unmodelled_or_oof": 0, "compile_errors": 0})
+        for c in fe:
+            mraw = model.get(c.cid, "")
+            mm = re.match(r"^model=(\S+) out=([0-9a-f]*) err=([0-9a-f]*) file=(\S+) ", mraw)
+            self.evaluations += 1
+            if not mm:
+                self.viol("front-end instance: the model gave no usable answer", c, {"raw": mraw})
+                continue
+            mexit, mout, merr, mfile = mm.groups()
+            if mexit == "unsupported":
+                fs["unsupported"] += 1
+                continue
+            if mexit in ("unmodelled", "oof") or mexit.startswith("hazard"):
+                fs["unmodelled_or_oof"] += 1
+                continue
+            r = c.real
+            if r["rc"] == "timeout" or r["rc"] < 0:
+                continue
+            fs["by_kind"][c.kind] = fs["by_kind"].get(c.kind, 0) + 1
+            want_rc = int(mexit.split(":")[1])
+            sel_real = r["out"]
+            model_sel_empty = mout == "" and (mfile == "-" or mfile.partition(":")[2] == "")
+            if r["rc"] == 1 and classify_err(r["err"]).startswith("pos ") and not (want_rc == 1 and model_sel_empty):
+                # the C++ parser rejects the text at COMPILE time (undefined symbol, static type check: `Error (l:c): …`) where
+                # Model/Parse + Elab have no such check (the model accepts, or fails only when the statement is reached):
+                # a limit of the front-end model (not of the CLI model); counted here, listed in the evidence and in the notes
+                fs.setdefault("cxx_rejects_where_front_end_model_accepts", []).append((c.src or "")[:60])
+                continue
+            if r["rc"] != want_rc:
+                self.viol("front-end instance: exit status %s, the model (text -> front end -> interpreter) gives %d" % (r["rc"], want_rc), c, {"raw": mraw})
+            elif bytes.fromhex(mout) != sel_real and bytes.fromhex(mout) != b"USAGE":
+                self.viol("front-end instance: stdout %r, the model gives %r" % (sel_real[:200], bytes.fromhex(mout)[:200]), c, {"raw": mraw})
+            elif mfile != "-" and r["made"].get(bytes.fromhex(mfile.partition(":")[0]).decode("latin-1").replace("./", "", 1)) != bytes.fromhex(mfile.partition(":")[2]):
+                self.viol("front-end instance: --out file differs from the model's", c, {"raw": mraw})
+            elif (classify_err(r["err"]) == "empty") != (merr == "") and not c.meta.get("debugall"):
+                self.viol("front-end instance: stderr %r, the model gives %r" % (r["err"][:200], bytes.fromhex(merr)[:200]), c, {"raw": mraw})
+            else:
+                fs["agree"] += 1
+                if want_rc == 1 and merr:
+                    fs["compile_errors"] += 1
+        self.stats["front_end_s"] = round(time.time() - t, 1)
+        t = time.time()
+        self.step_reader()
+        self.stats["reader_s"] = round(time.time() - t, 1)
+
+    # ------------------------------------------------------------------------------------------------ the reader alone
+    def step_reader(self):
+        """apps/read_file.cpp compiled from the tree under test (harness/c19reader.cpp) vs `readChunks` of Model/Cli.lean: the
+        chunk returned by EVERY call, for small and real buffer sizes; and the model's chunks against the Spec (file minus CRs)."""
+        try:
+            hbin = build.harness_build("c19reader")
+        except build.BuildError as e:
+            self.broken_ties.append("build c19reader: %s: %s" % (e.what, e.output[-800:]))
+            return
+        rng = self.rng
+        cases = []
+        dist = self.stats.setdefault("distribution", {}).setdefault("reader", {"max": {}, "file_len": {}, "with_cr": 0, "no_final_newline": 0, "line_ge_max": 0})
+
+        def add(mx, content):
+            cases.append(("r%d" % len(cases), mx, content))
+            dist["max"][str(mx)] = dist["max"].get(str(mx), 0) + 1
+            b = "0" if not content else "1-9" if len(content) < 10 else "10-99" if len(content) < 100 else "100-999" if len(content) < 1000 else "1000+"
+            dist["file_len"][b] = dist["file_len"].get(b, 0) + 1
+            dist["with_cr"] += 1 if b"\r" in content else 0
+            dist["no_final_newline"] += 1 if content and not content.endswith(b"\n") else 0
+            dist["line_ge_max"] += 1 if any(len(l) + 1 >= mx for l in content.replace(b"\r", b"").split(b"\n")) else 0
+
+        for mx in (1, 2, 3, 4, 7, 16, 1023):
+            for ln in (0, 1, mx - 1, mx, mx + 1, 2 * mx - 1, 2 * mx, 2 * mx + 1, 3 * mx):
+                if ln < 0:
+                    continue
+                line = bytes(97 + (i % 26) for i in range(ln))
+                for tail in (b"", b"\n", b"\r\n", b"\r", b"\nX", b"\r\nX\r", b"\n\n"):
+                    add(mx, line + tail)
+                if ln >= 2:
+                    add(mx, line[:ln - 1] + b"\r" + line[ln - 1:] + b"\n")           # CR right before the boundary byte
+                    add(mx, line[:1] + b"\r\r" + line[1:])
+        for _ in range(120 if self.tier == "quick" else 1500):
+            mx = rng.choice([1, 2, 3, 5, 8, 1023])
+            n = rng.choice([0, 1, 2, 5, 9, 17, 40, 300, 2500]) if mx != 1023 else rng.choice([1022, 1023, 1024, 2046, 2047, 3000, 5000])
+            alphabet = rng.choice([b"ab\n\r", b"abcdefgh\n", b"a\r", b"\n\r", b"ab\n\r\x00\xff", b"abcdefghijklmnopqrstuvwxyz" * 4 + b"\n\r"])
+            add(mx, bytes(rng.choice(alphabet) for _ in range(n)))
+        lines = ["%s %d %s" % (cid, mx, content.hex()) for cid, mx, content in cases]
+        p = subprocess.run([hbin], input=("\n".join(lines) + "\n").encode(), stdout=subprocess.PIPE, stderr=subprocess.PIPE, env=build.sanitizer_env(), timeout=300)
+        real = {}
+        for ln in p.stdout.decode("latin-1").split("\n"):
+            cid, _, r = ln.partition(" ")
+            if cid:
+                real[cid] = r
+        model = run.run_driver(["%s reader %d %s" % (cid, mx, content.hex()) for cid, mx, content in cases], workers=4)
+        if "#driver-error" in model:
+            self.broken_ties.append("driver: " + model["#driver-error"][-400:])
+        self.stats["reader_cases"] = len(cases)
+        for cid, mx, content in cases:
+            self.evaluations += 1
+            self.distinct.add(("reader", mx, content))
+            r, m = real.get(cid), model.get(cid, "")
+            desc = {"what": None, "case": "ReadFile::read, max_size=%d, file=%r" % (mx, content[:200]), "impl_ops": "c19reader %d %s" % (mx, content.hex()[:400]),
+                    "impl": str(r)[:600] + (" | stderr: " + p.stderr.decode("latin-1")[-600:] if r is None else ""), "model": m[:600], "spec": None, "kf": None,
+                    "meta": {"max": mx, "file_hex": content.hex()[:4000]}, "stderr_tail": p.stderr.decode("latin-1")[-800:]}
+            mm = re.match(r"^chunks=([0-9a-f,]*) spec=(eq|ne)$", m)
+            if r is None:
+                desc["what"] = "the reader harness gave no answer (crash / sanitizer report: rc=%s)" % p.returncode
+            elif not mm:
+                desc["what"] = "the model gave no usable answer for the reader"
+            elif r != "chunks=" + mm.group(1):
+                desc["what"] = "ReadFile::read returns other chunks than the model's readChunks"
+            elif mm.group(2) != "eq":
+                desc["what"] = "the model's chunks do not concatenate to the file minus CRs (Spec)"
+            elif b"".join(bytes.fromhex(x) for x in mm.group(1).split(",") if x) != content.replace(b"\r", b""):
+                desc["what"] = "the chunks do not concatenate to the file minus CRs"
+            if desc["what"]:
+                self.violations.append(desc)
+
+    def write_evidence(self, extra=None):
+        extra = dict(extra or {})
+        extra["input_distribution"] = self.stats.get("distribution", {})
+        Check.write_evidence(self, extra)
 
     def replay(self, rep):
         for v in rep.get("violations", [])[:5]:
